@@ -935,3 +935,55 @@ func countingLoop(info *types.Info, st *ast.ForStmt) bool {
 	})
 	return clean
 }
+
+// ---------------------------------------------------------------------------------------
+// C07: the TypeScript client and server plugins declare message and enum types through the same functions.
+// Both packages must obtain the message set from tscommon.CollectServiceMessages and print every message with
+// tscommon.GenerateInterface and every enum with tscommon.GenerateEnumType; neither may print a message- or
+// enum-shaped declaration of its own (an `export interface %s {` / `export type %s =` with a format verb as name
+// outside the fixed service-level declarations).
+
+func init() {
+	structuralRules["c07.shared_types"] = func(w *World) []OblResult {
+		var out []OblResult
+		for _, pkgName := range []string{"tsclientgen", "tsservergen"} {
+			pkg := w.ByName[pkgName]
+			var probs []string
+			if pkg == nil {
+				out = append(out, structResult("C07.shared."+pkgName, "package present", []string{"package " + pkgName + " not loaded"}))
+				continue
+			}
+			called := map[string]bool{}
+			for _, fi := range w.Funcs {
+				if fi.Obj.Pkg() != pkg || fi.Decl.Body == nil {
+					continue
+				}
+				ast.Inspect(fi.Decl.Body, func(n ast.Node) bool {
+					switch x := n.(type) {
+					case *ast.CallExpr:
+						if sel, ok := x.Fun.(*ast.SelectorExpr); ok {
+							if id, ok := sel.X.(*ast.Ident); ok && id.Name == "tscommon" {
+								called[sel.Sel.Name] = true
+							}
+						}
+					case *ast.BasicLit:
+						if x.Kind == token.STRING {
+							v := x.Value
+							if (strings.Contains(v, "export interface %s {") || strings.Contains(v, "export type %s =")) && !strings.Contains(v, "%sClientOptions") {
+								probs = append(probs, "own type declaration "+v+" at "+w.pos(x.Pos()))
+							}
+						}
+					}
+					return true
+				})
+			}
+			for _, need := range []string{"CollectServiceMessages", "GenerateInterface", "GenerateEnumType"} {
+				if !called[need] {
+					probs = append(probs, "does not call tscommon."+need)
+				}
+			}
+			out = append(out, structResult("C07.shared."+pkgName, "package "+pkgName+" declares message and enum types only through tscommon.GenerateInterface / GenerateEnumType over tscommon.CollectServiceMessages", probs))
+		}
+		return out
+	}
+}
